@@ -14,6 +14,8 @@ OBLIGATIONS = [
     "KafVerif.C34.parseIndex_total",
     "KafVerif.C34.pitr_collect_total",
     "KafVerif.C34.pitr_plan_total",
+    "KafVerif.C34.count_guard_is_widened",
+    "KafVerif.C34.int32_product_guard_admits_unbounded_count",
     "KafVerif.C34.icebergOld_headerCount_panics",
     "KafVerif.C34.sqlOld_headerCount_panics",
     "KafVerif.C34.icebergOld_recordLength_unbounded",
@@ -60,9 +62,43 @@ def var(v):
     return uvar(zz(v))
 
 
+# ---- integer-overflow bands -------------------------------------------------------------------
+# A guard of the form `v*k > len` or an allocation of `v*k` bytes computed in int32 (or int64) goes wrong for the
+# values v where k*v wraps negative or small-positive.  For every small multiplier k (element sizes, "minimum
+# record length" constants, 12-byte index entries, 40/112-byte structs, 61/64) the bands start at ceil(2^31/k) and
+# ceil(2^32/k) (int32) resp. ceil(2^63/k), ceil(2^64/k) (int64).
+MULTIPLIERS = list(range(2, 17)) + [24, 40, 61, 64, 112]
+
+
+def overflow_values(bits=32):
+    half, full = 1 << (bits - 1), 1 << bits
+    vals = set([half - 1, -half, -1, 1 << (bits - 2), (1 << (bits - 2)) + 1, half - 2])
+    for k in MULTIPLIERS:
+        a, b = -(-half // k), -(-full // k)             # ceil
+        for d in (-1, 0, 1):
+            vals.update([a + d, b + d])
+        vals.add((a + b) // 2)                          # middle of the wrap-negative band
+        vals.add(a + (b - a) // 4)
+        vals.add(b + (b - a) // 2)                      # wraps to a small positive
+        vals.add(-a)
+    return sorted(v for v in vals if -half <= v < half)
+
+
+OVF32 = overflow_values(32)
+OVF64 = overflow_values(64)
+
+
+def ovf(rng, bits=32):
+    if rng.chance(1, 6):
+        return rng.range(-(1 << (bits - 1)), (1 << (bits - 1)) - 1)
+    return rng.choice(OVF32 if bits == 32 or rng.chance(1, 2) else OVF64)
+
+
 def adv_int(rng, honest, remaining=None):
     """A varint value: mostly honest, sometimes a lie."""
-    k = rng.below(12)
+    k = rng.below(14)
+    if k >= 12:
+        return ovf(rng, 64)
     if k < 7:
         return honest
     if k == 7:
@@ -108,7 +144,7 @@ def adv_batch(rng, base):
     if mx >= 2 ** 63:
         mx = 2 ** 63 - 1
     attrs = rng.choice([0, 0, 0, 0, 0, 8, 16, 1, 4, 0x7fff, -8])
-    count = adv_int(rng, n, remaining=len(recs))
+    count = adv_int(rng, n, remaining=len(recs)) if rng.chance(5, 6) else ovf(rng, 32)
     count = max(-2 ** 31, min(2 ** 31 - 1, count))
     lod = rng.choice([n - 1, 0, -1, 2 ** 31 - 1, -2 ** 31])
     tail = struct.pack(">hiqqqhii", attrs, lod, first, mx, -1, -1, -1, count) + recs
@@ -121,7 +157,7 @@ def adv_batch(rng, base):
     elif k == 2:
         blen += rng.choice([-3, -1, 1, 2, 1000])
     elif k == 3:
-        blen = rng.choice([2 ** 31 - 1, 2 ** 31, 2 ** 32 - 1])
+        blen = rng.choice([2 ** 31 - 1, 2 ** 31, 2 ** 32 - 1, ovf(rng, 32)])
     head = struct.pack(">qIiB", base, blen & 0xFFFFFFFF, 0, 2) + struct.pack(">I", S.crc32c(tail) if rng.chance(3, 4) else 0)
     return head + tail
 
@@ -169,7 +205,7 @@ def mutate(rng, data):
 def adv_index(rng):
     n = rng.choice([0, 1, 2, 3, 10])
     ents = b"".join(struct.pack(">qi", rng.choice([0, 5, -1, 2 ** 40]), rng.choice([32, 100, -1])) for _ in range(n))
-    count = rng.choice([n, n, n, n + 1, n - 1, -1, -2 ** 31, 2 ** 31 - 1, 0x7fffffff // 12, 2 ** 28]) & 0xFFFFFFFF
+    count = rng.choice([n, n, n, n + 1, n - 1, -1, -2 ** 31, 2 ** 31 - 1, 0x7fffffff // 12, 2 ** 28, ovf(rng, 32), ovf(rng, 32)]) & 0xFFFFFFFF
     ver = rng.choice([1, 1, 1, 1, 0, 2])
     idx = (b"IDX\x00" if rng.chance(9, 10) else b"IDX\x01") + struct.pack(">HIiH", ver, count, rng.choice([1, 100, -1, 0]), 0) + ents
     if rng.chance(1, 6):
@@ -177,6 +213,53 @@ def adv_index(rng):
     if rng.chance(1, 8):
         idx += rng.bytes(rng.choice([1, 11, 12]))
     return idx
+
+
+MIN_REC = b"\x0c\x00\x00\x00\x01\x01\x00"          # the 7-byte record: null key, null value, no headers
+
+
+def field_probe(field, v):
+    """A small, otherwise well-formed segment (or index) in which exactly one length/count field holds v."""
+    if field == "recordCount":
+        return "seg", wrap_seg(mk_batch(max(-2 ** 31, min(2 ** 31 - 1, v)), MIN_REC * 3))
+    if field == "batchLen":
+        b = bytearray(mk_batch(1, MIN_REC))
+        b[8:12] = struct.pack(">I", v & 0xFFFFFFFF)
+        return "seg", wrap_seg(bytes(b) + MIN_REC * 2)
+    if field == "recordLen":
+        return "seg", wrap_seg(mk_batch(1, var(v) + MIN_REC[1:] + b"\x00" * 4))
+    if field == "keyLen":
+        return "seg", wrap_seg(mk_batch(1, rec(b"\x00\x00\x00" + var(v) + b"kk" + b"\x01\x00")))
+    if field == "valueLen":
+        return "seg", wrap_seg(mk_batch(1, rec(b"\x00\x00\x00\x01" + var(v) + b"vv" + b"\x00")))
+    if field == "headerCount":
+        return "seg", wrap_seg(mk_batch(1, rec(b"\x00\x00\x00\x01\x01" + var(v) + b"\x02k\x02v")))
+    if field == "headerKeyLen":
+        return "seg", wrap_seg(mk_batch(1, rec(b"\x00\x00\x00\x01\x01\x02" + var(v) + b"k\x02v")))
+    if field == "headerValueLen":
+        return "seg", wrap_seg(mk_batch(1, rec(b"\x00\x00\x00\x01\x01\x02\x02k" + var(v) + b"v")))
+    if field == "indexCount":
+        return "idx", b"IDX\x00" + struct.pack(">HIiH", 1, v & 0xFFFFFFFF, 1, 0) + struct.pack(">qi", 0, 32) * 2
+    raise KeyError(field)
+
+
+FIELDS32 = ["recordCount", "batchLen", "indexCount"]          # fixed-width 32-bit header fields
+FIELDSVAR = ["recordLen", "keyLen", "valueLen", "headerCount", "headerKeyLen", "headerValueLen"]   # varints (sql: int32, iceberg/PITR: int64)
+
+
+def overflow_probes(rng, per_var_field):
+    """Systematic stream: every 32-bit field over ALL int32 overflow-band values; every varint field over a sample of the
+    int32 and int64 bands."""
+    segs, idxs = [], []
+    for f in FIELDS32:
+        for v in OVF32:
+            kind, data = field_probe(f, v)
+            (segs if kind == "seg" else idxs).append(data)
+    for f in FIELDSVAR:
+        vals = [rng.choice(OVF32) for _ in range(per_var_field)] + [rng.choice(OVF64) for _ in range(per_var_field // 2)]
+        for v in vals:
+            segs.append(field_probe(f, v)[1])
+    return segs, idxs
 
 
 def gen_inputs(ck, n, valid_segments):
@@ -260,6 +343,8 @@ def evaluate(ck, triples, impl, allocs):
               "plan": "buildRestorePlan", "pidx": "ParseIndex"}.get(kind, kind)
         if cls == "panic":
             hits.append(("%s-%s-panics" % (target, fn), "%s %s panicked on %d input bytes" % (target, fn, n), target, op))
+        elif cls == "skipped":
+            continue
         elif cls == "crash":
             hits.append(("%s-%s-fatal" % (target, fn), "%s %s killed the process (fatal error / out of memory) on %d input bytes" % (target, fn, n), target, op))
         elif a > ALLOC_K * n + ALLOC_C:
@@ -273,7 +358,7 @@ def run_all(ck, bins, triples, tag, model=True):
     allocs = [0] * len(triples)
     for target in ("iceberg", "sql", "root"):
         idxs = [i for i, t in enumerate(triples) if t[0] == target]
-        lines, al = S.run_harness(ck, bins[target], [triples[i][1] for i in idxs], target + tag, as_gb=4, timeout=240)
+        lines, al = S.run_harness(ck, bins[target], [triples[i][1] for i in idxs], target + tag, as_gb=4, timeout=240, max_crashes=6)
         for i, l, a in zip(idxs, lines, al):
             impl[i], allocs[i] = l, a
     mod = None
@@ -315,7 +400,9 @@ def run(ck):
     ck.cov["rule"] = ("inputs = random byte strings, hand-structured adversarial segments (valid framing; lying record/key/value/header "
                       "lengths and counts: -1, +-1 around the bytes remaining, 2^31..2^63; truncated records; compressed/odd attributes; "
                       "lying batch lengths), mutations (bit flips, truncation, spliced huge varints, overwritten 32-bit fields) of "
-                      "broker-written segments, and adversarial index files; each fed to iceberg/sql decodeSegment+parseIndex and to the PITR "
+                      "broker-written segments, adversarial index files, and overflow-band probes (each 32-bit count/length field "
+                      "set to every value ceil(2^31/k)+-1, ceil(2^32/k)+-1, band middles, for k in 2..16,24,40,61,64,112; varint fields "
+                      "sampled from the int32 and int64 bands); each fed to iceberg/sql decodeSegment+parseIndex and to the PITR "
                       "scanner/collector/plan builder; non-trivial = passes the magic/size checks (reaches the batch loop); distinct = distinct ops")
     # valid segments to mutate: written by the real BuildSegment
     vrng = ck.rng.fork()
@@ -325,7 +412,10 @@ def run(ck):
     valid = [S.unhex(S.kv(b)["seg"]) for b in built if b.startswith("built ")]
     valid = [v for v in valid if len(v) < 1500] or valid[:2]
     segs, idxs = gen_inputs(ck, n, valid)
-    segs = [f() for _, f in FIXED] + segs
+    psegs, pidxs = overflow_probes(ck.rng.fork(), 10 if ck.quick() else 60)
+    ck.count("overflow_band_probes", len(psegs) + len(pidxs))
+    segs = [f() for _, f in FIXED] + psegs + segs
+    idxs = pidxs + idxs
     triples = make_ops(segs, idxs, ck.rng.fork())
     import glob, os
     for fn in sorted(glob.glob(os.path.join(lib.REPLAYS, "C34", "*.json"))):     # corpus first
@@ -357,6 +447,7 @@ def run(ck):
             except Exception:
                 small = op
         ck.violation(fp, what, {"target": target, "op": small, "actual": what, "expected": "ok or err, allocation <= %d*len+%d" % (ALLOC_K, ALLOC_C)})
+    mod = [("skipped" if i < len(impl) and impl[i] == "skipped" else m) for i, m in enumerate(mod)]
     d = lib.first_diff(impl, mod)
     if d is not None:
         ck.cov["disagreements_checked"] += 1
